@@ -105,6 +105,7 @@ func NewMerger(less func(a, b *sam.Record) bool, src ...*Reader) (*Merger, error
 		if err != nil {
 			return nil, err
 		}
+		m.reassignReference(i, rec)
 		readers[i].head = rec
 		m.readers = append(m.readers, &readers[i])
 	}
@@ -157,13 +158,13 @@ func (m *Merger) nextBySortOrder() (rec *sam.Record, err error) {
 	reader.head, reader.err = reader.r.Read()
 	switch reader.err {
 	case nil:
+		m.reassignReference(reader.id, reader.head)
 		m.push(reader)
 	case io.EOF:
 	default:
 		// Report the failure after the record already in hand.
 		m.err = reader.err
 	}
-	m.reassignReference(reader.id, rec)
 	return rec, nil
 }
 
